@@ -584,6 +584,15 @@ class ExprMixin:
                 return [(st, r)]
             if ka == "int" and kb == "int":
                 return [(st, mkI(f"(+ {asI(la)} {asI(lb)})"))]
+            if {ka, kb} == {"str", None} and (la if ka is None else lb).sort == "V":
+                # str + x / x + str with x of statically unknown kind: a str concatenation if x is a str, TypeError otherwise
+                # (str defines neither __add__ nor __radd__ for anything else; closed class table: no statham class defines them)
+                u = la if ka is None else lb
+                paths = self.raising(st, None, [(TypeError, Not(f"(k_str {asV(u)})"))], node)
+                s_ok = paths[-1][0]
+                ta = asS(la) if ka == "str" else f"(sval {asV(la)})"
+                tb = asS(lb) if kb == "str" else f"(sval {asV(lb)})"
+                return paths[:-1] + [(s_ok, mkS(f"(str.++ {ta} {tb})"))]
         if isinstance(op, ast.Sub) and ka == "int" and kb == "int":
             return [(st, mkI(f"(- {asI(la)} {asI(lb)})"))]
         if isinstance(op, ast.Mult) and ka == "int" and kb == "int":
